@@ -519,3 +519,20 @@ REG.add(Contract("RuleMatcher.match", module=M_RM, kind="method",
                          ("NetworkXError", "(not mr_unmatched(evaluable._graph, self._module_requirement)) and fv_raises(evaluable._graph, umr_of(evaluable._graph, self._module_requirement), self._behavior_requirement)"),
                          ("AssertionError", "(not mr_unmatched(evaluable._graph, self._module_requirement)) and (not fv_raises(evaluable._graph, umr_of(evaluable._graph, self._module_requirement), self._behavior_requirement)) and viol_Q(evaluable._graph, umr_of(evaluable._graph, self._module_requirement), self._behavior_requirement)")],
                  opaque=_OPQ + _QOPQ, use_at_start=_E_USES, cases=["self._module_requirement._importer_specified_as_rule_subject"], properties=["C01", "C03", "C11", "C12", "C13", "C15"]))
+
+# ---------------------------------------------------------------- message generator: grouping of missing-import pairs per subject (C03)
+M_MG = "pytestarch.rule_assessment.error_message.message_generator"
+vals.declare_obj("RuleViolationMessageGenerator", dict(_import_rule="Bool", _base_verb="Str"))
+RMG = "RuleViolationMessageGenerator"
+REG.add(Contract(f"{RMG}._get_violating_rule_subjects_and_objects", module=M_MG, kind="method",
+                 params=dict(self=RMG, rule_violation_dependencies="Bag[Dep]"), returns="Tuple[Dict[Mod,Bag[Mod]],Set[Mod]]",
+                 # C03: every 'does not import' line names ONE subject together with exactly the objects IT is missing
+                 ensures=["forall(Mod, lambda s: (s in result[1]) == exists(Mod, lambda o: (s, o) in rule_violation_dependencies))",
+                          "forall(Mod, lambda s: (s in result[0]) == exists(Mod, lambda o: (s, o) in rule_violation_dependencies))",
+                          "forall(Mod, Mod, lambda s, o: implies(s in result[0], (o in result[0][s]) == ((s, o) in rule_violation_dependencies)))"],
+                 locals=dict(violating_rule_subjects="Set[Mod]", rule_objects_for_rule_subject="DDict[Mod,Bag[Mod]]"),
+                 loops={0: dict(sig="for (rule_subject, rule_object) in rule_violation_dependencies", invariant=[
+                     "forall(Mod, lambda s: (s in violating_rule_subjects) == exists(Mod, lambda o: (s, o) in seen))",
+                     "forall(Mod, lambda s: (s in rule_objects_for_rule_subject) == exists(Mod, lambda o: (s, o) in seen))",
+                     "forall(Mod, Mod, lambda s, o: implies(s in rule_objects_for_rule_subject, (o in rule_objects_for_rule_subject[s]) == ((s, o) in seen)))"])},
+                 properties=["C03"]))
